@@ -493,6 +493,48 @@ def _ds_case(args):
     return out
 
 
+def _long_case(args):
+    """One long call sequence at the *default* capacity: more distinct
+    argument sets than the cache holds, early ones revisited after their
+    eviction, the last result modified in place after every call."""
+    fname, = args
+    from dclab import cached
+    fn, raw = CacheDriver()._funcs()[fname]
+    cached.Cache.clear_cache()
+    cap = cached.MAX_SIZE
+    base = np.array([0.11, 0.52, 0.23, 0.94, 0.35, 0.76, 0.17, 0.68,
+                     0.49, 0.80, 0.31, 0.62])
+    ndist = cap + 30
+
+    def argsfor(k):
+        x = base[:6] * (1 + k) + 0.001 * k
+        y = base[6:] + 0.01 * k
+        if fname == "downsample_grid":
+            return (x, y, 3), {"ret_idx": True}
+        return (x, y), {}
+    seq = list(range(ndist)) + list(range(40)) + list(range(ndist))[::-1] \
+        + [0, cap, 1, cap + 1, 0, 0]
+    out = []
+    for pos, k in enumerate(seq):
+        a, kw = argsfor(k)
+        got = fn(*a, **kw)
+        want = raw(*[v.copy() if isinstance(v, np.ndarray) else v
+                     for v in a], **kw)
+        if not _same(_as_list(got), _as_list(want)):
+            out.append(violation(
+                "dclab.cached:Cache.__call__", "cached-differs-from-fresh",
+                {"kind": "long", "func": fname},
+                f"{fname}: call {pos} of the long sequence (argument set "
+                f"{k}, capacity {cap}) differs from a fresh evaluation",
+                {"func": fname, "long": True}))
+            break
+        for g in (got if isinstance(got, tuple) else (got,)):
+            if isinstance(g, np.ndarray) and g.size and g.flags.writeable:
+                g[...] = 0 if g.dtype != bool else ~g
+    cached.Cache.clear_cache()
+    return len(seq), out
+
+
 def _bfs(args):
     which, depth, dev, scratch = args
     if which == "hashfile":
@@ -533,13 +575,22 @@ def run(ctx):
     for vs in par.pmap(_ds_case, items):
         viols.extend(vs)
     cov["dataset_access_pair_cases"] = len(items) * 2 * len(PATS) ** 2
+    lres = par.pmap(_long_case, [(f,) for f in (
+        "kde_gauss", "kde_histogram", "kde_multivariate",
+        "downsample_grid")])
+    cov["long_sequence_calls"] = sum(n for n, _ in lres)
+    for _, vs in lres:
+        viols.extend(vs)
     cov["rule"] = ("BFS over call sequences of the memoised functions with "
                    "cache capacity 3 and a pool of adversarially similar "
                    "arguments (same bytes/other dtype, byte stream split "
                    "differently, keyword vs positional, strided views), "
                    "interleaved with in-place mutation of the last result; "
                    "hashfile with 1-ns mtime steps; LazyContourList("
-                   "max_events=2); oracle = undecorated function")
+                   "max_events=2); one 306-call sequence per function at the "
+                   "default capacity (130 distinct argument sets, early "
+                   "ones revisited after eviction); oracle = undecorated "
+                   "function")
     return {"level": LEVEL, "coverage": cov, "violations": viols,
             "vacuous": None if cov["distinct_observations"] > 10 else "few",
             "assumptions": [
@@ -549,6 +600,8 @@ def run(ctx):
 
 
 def replay(case, ctx):
+    if case.get("kind") == "long":
+        return _long_case((case["func"],))[1]
     if case.get("kind") == "dataset":
         return _ds_case((case["ds"], case["seed"], ctx.scratch))
     name = case["driver"]
